@@ -33,7 +33,7 @@ ARRAY_OPS = [("store", F), ("fetch", F), ("has", F), ("store", Z), ("fetch", Z),
 RECONF_OPS = [("store", L), ("fetch", L), ("has", L), ("reconfigure", None), ("fetch", P), ("sync_q_to", L), ("fetch_paths", None)]
 PATH_OPS = [("sync_q_to", P), ("sync_q_to", N), ("sync_r_to", P), ("sync", None), ("fetch_paths", None)]
 EXTRA_KEYS = ["x%d" % i for i in range(12)]  # to fill / overflow the cache
-CAPS = [1, 2, 3, 10, sys.maxsize // 2]
+CAPS = [0, 1, 2, 3, 10, sys.maxsize // 2]  # 0: a wrapper that may hold nothing
 
 
 def value_of(k):
